@@ -230,12 +230,95 @@ def case_of_replay(obj):
 
 
 def replay(ctx, obj):
+    if obj.get("kind") == "units":
+        data = {k: [float(x) for x in v] for k, v in obj["data"].items()}
+        kw = dict(unit=obj["unit"], sampling=(1, obj["unit"], 0.1), limit=8.0, timeout_is_outcome=True)
+        on = impl.run_online_discrete(obj["spec"], sorted(data), data, obj["n"], **kw)
+        off = impl.eval_offline_discrete(obj["spec"], sorted(data), data, obj["n"], **kw)
+        ok = on[0] == "ok" and off[0] == "ok" and common.same_nums(on[1], [p_[1] for p_ in off[1]])
+        return ok, ("online agrees with offline" if ok else "online %r differs from offline %r" % (on[:2], off[:2]))
     c = case_of_replay(obj)
     scratch = Ctx(ctx.id, ctx.tier, ctx.seed)
     v, d = check_case(scratch, c, *model(c))
     if v is not None:
         return False, v.what
     return True, "online updates agree with offline evaluation and rho on the replayed case"
+
+
+def units_stream(ctx, rng, count):
+    """Online = offline when the bounds carry explicit units: two bounded past operators over the same operands whose bounds are
+    written with the same numerals and different units (the printed names of the nodes, by which the online operators are
+    stored, must tell them apart), default unit and period in the finer unit."""
+    for _ in range(count):
+        fine, coarse = rng.choice([("ms", "s"), ("us", "ms"), ("ns", "us")])
+        k = rng.randint(1, 3)
+        op1 = rng.choice(["once", "historically", "once", "historically", "since"])
+        op2 = op1 if rng.random() < 0.7 else rng.choice(["once", "historically"])
+        p = "(a >= %s)" % rng.choice(["0.5", "1.0", "2.0"])
+        slow = "since" in (op1, op2)        # the bounded since of rtamt is quadratic in the bound (1000 samples here)
+        if slow:
+            k = 1
+
+        def app(op, b):
+            if op == "since":
+                return "((a <= 3.0) since[0,%s] %s)" % (b, p)
+            return "(%s[0,%s] %s)" % (op, b, p)
+        b1, b2 = "%d%s" % (k, coarse), ("%d%s" % (k, fine) if rng.random() < 0.5 else "%d" % k)
+        if rng.random() < 0.3:
+            b1 = "%d%s" % (k * 1000, fine)          # control: everything in the finer unit
+        text = "out = (%s %s (%s%s))" % (app(op1, b1), rng.choice(["and", "or"]), rng.choice(["", "not "]), app(op2, b2))
+        n = rng.randint(3, 4) if slow else rng.randint(3, 9)
+        data = {"a": [rng.choice([-1.0, 0.0, 1.0, 2.0, 3.0, 5.0]) for _ in range(n)]}
+        kw = dict(unit=fine, sampling=(1, fine, 0.1), limit=20.0)
+        # the model keys the operators by the formula, the code by the printed name of the node: the names have to tell apart
+        # nodes that differ (checked on the parsed tree for every bounded operator class, without running the monitor)
+        for o1 in ("once", "historically", "since", "eventually", "always", "until"):
+            def app2(b):
+                return "((a <= 3.0) %s[0,%s] %s)" % (o1, b, p) if o1 in ("since", "until") else "(%s[0,%s] %s)" % (o1, b, p)
+            t2 = "out = (%s or (not %s))" % (app2(b1), app2(b2))
+
+            def names():
+                sp = impl.make_spec("offd", t2, ["a"], unit=fine, sampling=(1, fine, 0.1))
+                sp.parse()
+                return impl.name_collisions(sp)
+            col = impl.guarded(names)
+            if col[0] == "ok" and col[1]:
+                # look for a trace on which the shared operator shows: online against offline on this very specification
+                found = False
+                for _t in range(10):
+                    n2 = 5
+                    d2 = {"a": [rng.choice([-1.0, 0.0, 1.0, 2.0, 3.0, 5.0]) for _ in range(n2)]}
+                    on2 = impl.run_online_discrete(t2, ["a"], d2, n2, pastify=(o1 in ("eventually", "always", "until")), **kw)
+                    off2 = impl.eval_offline_discrete(t2, ["a"], d2, n2, **kw)
+                    if on2[0] == "ok" and off2[0] == "ok" and o1 not in ("eventually", "always", "until") \
+                            and not common.same_nums(on2[1], [p_[1] for p_ in off2[1]]):
+                        ctx.violations.append(Violation("update() returns %r, offline evaluate() gives %r: %s (unit %s, period 1 %s); two "
+                                                        "different nodes print the same name %r" % (on2[1], [p_[1] for p_ in off2[1]], t2, fine, fine, col[1][0]),
+                                                        {"kind": "units", "spec": t2, "unit": fine, "data": d2, "n": n2}, stream="units/names"))
+                        found = True
+                        break
+                if found:
+                    break
+                ctx.diffs.append(Violation("two different nodes of %s print the same name %r (the online interpreter stores one operator "
+                                           "per name)" % (t2, col[1][0]), {"kind": "units", "spec": t2, "unit": fine, "data": data, "n": n},
+                                           failing_input=False, stream="units/names"))
+                break
+        on = impl.run_online_discrete(text, ["a"], data, n, **kw)
+        off = impl.eval_offline_discrete(text, ["a"], data, n, **kw)
+        ctx.evaluations += 1
+        ctx.count("stream:units")
+        rep = {"kind": "units", "spec": text, "unit": fine, "data": data, "n": n, "impl_online": on, "impl_offline": off}
+        if on[0] != "ok" or off[0] != "ok":
+            ctx.violations.append(Violation("online / offline raised %r / %r: %s (unit %s, period 1 %s)" % (on[:2], off[:2], text, fine, fine),
+                                            rep, stream="units"))
+        elif not common.same_nums(on[1], [p_[1] for p_ in off[1]]):
+            ctx.violations.append(Violation("update() returns %r, offline evaluate() gives %r: %s (unit %s, period 1 %s)"
+                                            % (on[1], [p_[1] for p_ in off[1]], text, fine, fine), rep, stream="units"))
+        else:
+            ctx.traces_validated += 1
+            ctx.nontrivial.add((text, str(data)))
+        if len(ctx.violations) >= 3:
+            return
 
 
 def run(ctx):
@@ -248,6 +331,8 @@ def run(ctx):
     if ctx.violations:
         return
     explore(ctx, ctx.subrng("on-d"), ctx.budget(600, 10000))
+    if not ctx.violations:
+        units_stream(ctx, ctx.subrng("units"), ctx.budget(80, 800))
 
 
 def search(ctx):
